@@ -30,6 +30,73 @@ SWAP = {"px1": "px2", "px2": "px1", "cluster1": "cluster2", "cluster2": "cluster
 from tiv.absdom import EvUnk as _EvUnk, ev as _ev
 
 
+def _check_bg(ck, ub, A, f):
+    """The argument of SGR_BG_DIRECT in one case of update_buffer's output: the lower cluster's colour (`cluster2`, whole or by components);
+    exactly when the kitty work-around applies (is_on_kitty and cluster2 == bg_color) its red component - and only it - is moved by one,
+    staying in 0..255 (decided for each of the 256 values). Conditional expressions on the work-around condition inside the argument are split."""
+    from tiv import emit
+    KX = ast.parse("is_on_kitty and cluster2 == bg_color", mode="eval").body
+
+    def kitty_cond(t):
+        return any(isinstance(n, ast.Name) and n.id in ("is_on_kitty", "bg_color") for n in ast.walk(t))
+
+    def split(e, facts):
+        if isinstance(e, ast.IfExp) and kitty_cond(e.test):
+            tv = emit.truth(e.test, facts)
+            if tv is not False:
+                yield from split(e.body, {**facts, norm(e.test): True} if tv is None else facts)
+            if tv is not True:
+                yield from split(e.orelse, {**facts, norm(e.test): False} if tv is None else facts)
+        elif isinstance(e, ast.Tuple) and len(e.elts) == 3 and isinstance(e.elts[0], ast.IfExp) and kitty_cond(e.elts[0].test):
+            for fx, r_ in split(e.elts[0], facts):
+                yield fx, ast.Tuple(elts=[r_, e.elts[1], e.elts[2]], ctx=ast.Load())
+        else:
+            yield facts, e
+    # every valuation of the atoms the work-around can depend on that is consistent with the case's facts (with equal halves, cluster1 == bg_color
+    # and cluster2 == bg_color are the same proposition)
+    import itertools
+    AT = ["is_on_kitty", "cluster1 == bg_color", "cluster2 == bg_color"]
+    vals = []
+    for bits in itertools.product((True, False), repeat=3):
+        val = dict(zip(AT, bits))
+        if f.get("cluster1 == cluster2") is True and val[AT[1]] != val[AT[2]]:
+            continue
+        if all(emit.truth(ast.parse(k_, mode="eval").body, val) in (None, v_) for k_, v_ in f.items()):
+            vals.append({**f, **val})
+    seen = set()
+    for fx, v in (y for val in vals for y in split(A, val)):
+        k = emit.truth(KX, fx)
+        if (k, norm(v)) in seen:
+            continue
+        seen.add((k, norm(v)))
+        if norm(v) == "cluster2":
+            comps = [ast.parse(f"cluster2[{i}]", mode="eval").body for i in range(3)]
+        elif isinstance(v, ast.Tuple) and len(v.elts) == 3:
+            comps = list(v.elts)
+        else:
+            ck.expect(False, f"update_buffer: background colour argument `{short(v)}` is not the lower cluster or a 3-tuple")
+            continue
+        ok_gb = norm(comps[1]) == "cluster2[1]" and norm(comps[2]) == "cluster2[2]"
+        plain = norm(comps[0]) == "cluster2[0]"
+        why = ""
+        if k:
+            ok = ok_gb and not plain
+            if ok:
+                try:
+                    for r_ in range(256):
+                        n_ = _ev(comps[0], {"cluster2[0]": r_})
+                        if isinstance(n_, bool) or not isinstance(n_, int) or abs(n_ - r_) != 1 or not 0 <= n_ <= 255:
+                            ok, why = False, f" (red {r_} -> {n_!r})"
+                            break
+                except _EvUnk as ex:
+                    ck.expect(False, f"update_buffer: nudged red component `{short(comps[0])}` not evaluable ({ex})")
+                    continue
+        else:
+            ok = ok_gb and plain
+        ck.ob("R3", ub, ok, f"the kitty workaround must test the cluster whose colour is used as background (`cluster2 == bg_color`, under is_on_kitty) and nudge only its red component by one, within 0..255; "
+              f"with the work-around {'applying' if k else 'not applying'} the background is `{short(v, 90)}`{why}", stmt=f"update_buffer: kitty workaround on the BG cluster [{'on' if k else 'off'}]")
+
+
 def rels(e):
     """Canonical set of atomic relations of a (chained) comparison: frozenset of (op, frozenset(operands))."""
     if isinstance(e, ast.Compare):
@@ -232,12 +299,11 @@ def run(ck, m):
     cs = emit.cases(term, {}, limit=6)
     ck.expect(cs is not None, "update_buffer: too many free conditions in the output shape")
     A, T1, T2, EQ = "alpha", "a_cluster1 == 0", "a_cluster2 == 0", "cluster1 == cluster2"
-    unp = find_stmts("$$r, $$g, $$b = cluster2", body_walk(ub))
-    rn_ = norm(unp[0][1]["r"]) if len(unp) == 1 else "r"
-    BG = rf"SGR_BG_DIRECT\(\(({re.escape(rn_)}|cluster2\[0\]), cluster2\[1\], cluster2\[2\]\)\)"
+    BG = "BG"
     n_cases = 0
     for f, t in cs or []:
-        extra = set(f) - {A, T1, T2, EQ}
+        # the kitty work-around's own condition may split cases: it only selects the background argument (checked by _check_bg)
+        extra = {k_ for k_ in set(f) - {A, T1, T2, EQ} if not {norm(x_) for x_ in emit.atoms_of_cond(ast.parse(k_, mode="eval").body)} <= {"is_on_kitty", "cluster1 == bg_color", "cluster2 == bg_color"}}
         ck.expect(A in f, "update_buffer: `alpha` is not a condition of the output shape")
         if A not in f:
             continue
@@ -249,6 +315,10 @@ def run(ck, m):
         # every run is emitted self-contained (the urwid canvas cuts lines at run boundaries and re-uses a run leader's colour sequences)
         n_cases += 1
         got = repr(t)
+        for a_ in emit.atoms(t):
+            if isinstance(a_, emit.Fmt) and a_.tmpl == "SGR_BG_DIRECT":
+                got = got.replace(repr(a_), "BG")
+                _check_bg(ck, ub, a_.args, f)
         al_, t1, t2, eq = f.get(A), f.get(T1), f.get(T2), f.get(EQ)
         tag = f"alpha={al_}, upper transparent={t1}, lower transparent={t2}, halves equal={eq}" + ("".join(f", {k[:40]}={v}" for k, v in sorted(f.items()) if k in extra))
         if al_ and t1 and t2:
@@ -267,24 +337,6 @@ def run(ck, m):
         want = want.replace("NVX", re.escape(NV))
         ck.ob("R3", ub, re.fullmatch(want, got) is not None, f"update_buffer [{tag}]: {why}; emitted `{got}`", stmt=f"update_buffer: emission [{tag}]")
     ck.expect(n_cases >= 12, f"update_buffer: expected >= 12 cases, found {n_cases}")
-    # the kitty workaround nudges only the red component of the background colour, by one, when that colour equals the terminal background
-    augs = [s_ for s_ in body_walk(ub) if isinstance(s_, ast.AugAssign)]
-    okk = bool(augs)
-    for s_ in augs:
-        cds = conds(s_)
-        if norm(s_.target) != rn_ or not {"is_on_kitty", "cluster2 == bg_color"} <= cds:
-            okk = False
-        elif norm(s_) == f"{rn_} += {rn_} < 255 or -1":
-            pass
-        elif norm(s_) == f"{rn_} += 1" and f"{rn_} < 255" in cds:
-            pass
-        elif norm(s_) == f"{rn_} -= 1" and (f"not {rn_} < 255" in cds or f"not ({rn_} < 255)" in cds or f"{rn_} >= 255" in cds or f"{rn_} == 255" in cds):
-            pass
-        else:
-            okk = False
-    ck.ob("R3", augs[0] if augs else ub, okk and len(unp) == 1, f"the kitty workaround must test the cluster whose colour is used as background (`cluster2 == bg_color`, under is_on_kitty) and nudge only its red component by one; found {[short(s_, 50) for s_ in augs]}",
-          stmt="update_buffer: kitty workaround on the BG cluster")
-
     # ---- R4 ----------------------------------------------------------------------------
     gd = next((c for c in body_walk(br) if isinstance(c, ast.Call) and (call_name(c) or "").endswith("_get_render_data")), None)
     ck.ob("R4", enclosing_stmt(gd) if gd else br, gd is not None and norm(kw(gd, "round_alpha")) == "True" and norm(kw(gd, "frame")) == "frame", "the block renderer must request bi-level alpha (round_alpha=True)", stmt="block: _get_render_data(..., round_alpha=True)")
@@ -299,8 +351,10 @@ def run(ck, m):
         okc = b_ is not None and norm(trace(grd, b_["t"])) in ("round(alpha__0 * 255)", "round(alpha * 255)")
     rnd = [1]
     ck.ob("R4", cls[0] if cls else grd, len(rnd) == 1 and okc, "pixels strictly below the (0..255) threshold are transparent, at or above it opaque: `0 if val < alpha else 255` with alpha = round(alpha * 255)", stmt="_get_render_data: strict < threshold classification")
-    comp = [c for c in body_walk(grd) if isinstance(c, ast.Call) and norm(c.func) == "bg.alpha_composite"]
-    ck.expect(len(comp) == 2, "_get_render_data: the two compositing sites not found")
+    # compositing sites: `<X>.alpha_composite(img)` where X was created as a new RGBA image of img's size (any local name)
+    comp = [c for c in body_walk(grd) if isinstance(c, ast.Call) and isinstance(c.func, ast.Attribute) and c.func.attr == "alpha_composite" and isinstance(c.func.value, ast.Name)
+            and [norm(a_) for a_ in c.args] == ["img"] and norm(trace(grd, c.func.value, use=c)).startswith("Image.new('RGBA', img.size")]
+    ck.expect(len(comp) == 2, f"_get_render_data: the two compositing sites not found ({len(comp)})")
     for c in comp:
         gs = set()
         for t, b in guards(c):
@@ -310,7 +364,8 @@ def run(ck, m):
         ck.ob("R4", enclosing_stmt(c), not data_dep, f"compositing over the background is skipped under a data-dependent condition {data_dep}: partially transparent pixels at or above the threshold would then show their raw colour instead of the blend",
               stmt=f"_get_render_data: compositing under state-only conditions ({'str alpha' if any('isinstance(alpha, str)' in g and not g.startswith('not') for g in gs) else 'threshold'})")
     thr = next((c for c in comp if any(norm(t) == "round_alpha" and b for t, b in guards(c))), None)
-    ck.ob("R4", grd, thr is not None and any(norm(s) == "bg.putalpha(img.getchannel('A'))" for s in enclosing_stmt(thr)._p.body), "thresholded transparency composites over the terminal background and keeps the alpha channel", stmt="_get_render_data: threshold branch composites and keeps alpha")
+    ck.ob("R4", grd, thr is not None and any(norm(s) == f"{norm(thr.func.value)}.putalpha(img.getchannel('A'))" for s in enclosing_stmt(thr)._p.body),
+          "thresholded transparency composites over the terminal background and keeps the alpha channel", stmt="_get_render_data: threshold branch composites and keeps alpha")
 
     rule_pixel_pipeline(ck, m, "R4")
 
